@@ -4,8 +4,9 @@
    of the generated pipelines (including the applications that raise SubqueryError), and the L1
    correspondence compares every accepted pipeline's SQLite result with the reference. *)
 From Coq Require Import List String NArith ZArith Bool.
-From PDT Require Import Model.Dtype Model.Value Model.Ops Model.Expr Model.RefSem Model.Typing Model.Cache
-     Proofs.SubqueryLemmas.
+From PDT Require Import Model.Dtype Model.Value Model.Ops Model.Expr Model.RefSem Model.Typing
+     Model.SqlCompile Model.Accept Model.Cache Proofs.SubqueryLemmas Proofs.AcceptLemmas.
+From PDTGen Require Import Catalogue.
 Import ListNotations.
 Open Scope list_scope.
 
@@ -62,3 +63,45 @@ Example filter_after_window_example :
   requires_subquery false c v false = Some RFilterAfterWindow
   /\ requires_subquery false (upd_marker c) v false = None.
 Proof. vm_compute. split; reflexivity. Qed.
+
+(* SUFFICIENCY of the catalogue on the flat fragment.  [accepted sch a]: at every verb of the pipeline the
+   transcribed Cache.requires_subquery, applied to the transcribed metadata (Cache.from_ast) of the verb's
+   input, demands no subquery - i.e. the verb front end raises no SubqueryError.  [shape_ok a] is the
+   fragment of Model/SqlCompile.flat_ok (Properties/C01.v) WITHOUT its conditions on the LIMIT state: for
+   every database, an accepted pipeline of that shape is compiled to a SELECT that returns exactly the
+   reference table.  The two transcriptions (metadata, compiler) are linked by an invariant proved by
+   induction over the pipeline (Proofs/AcceptLemmas.limit_link); both are tied to the code on every run
+   (L2 decision by decision, L3 field by field). *)
+Theorem accepted_flat_pipelines_are_compiled_correctly : forall sch d a c,
+  compile a = Some c -> shape_ok a = true -> accepted sch a = true ->
+  sem_query d c = export_ref (sem_ref d a).
+Proof. exact accepted_compile_correct_proof. Qed.
+Print Assumptions accepted_flat_pipelines_are_compiled_correctly.
+
+(* shape_ok asks every slice_head to keep at least one row.  Without that the statement is FALSE of the
+   faithful model: slice_head(0) sets the metadata's limit to 0, which the catalogue reads as "no limit",
+   so a following summarize is accepted and folded into the same SELECT (COUNT ... LIMIT 0 returns no
+   row, the reference returns one row holding 0).  This is the listed finding F16; the witness below is
+   replayed against the implementation by the probe of F16. *)
+Theorem slice_head_zero_refuted : exists sch d a c,
+  compile a = Some c /\ accepted sch a = true /\ sem_query d c <> export_ref (sem_ref d a).
+Proof.
+  exists [(1%N, TS SInt64)], [("t"%string, [[VInt 1]; [VInt 2]])],
+         (Summarize (SliceHead (Source "t" [("x"%string, 1%N)]) 0 0) [("n"%string, 2%N, EFn Op_count_star [] false [] [])]).
+  eexists. split; [reflexivity|]. split; [vm_compute; reflexivity|]. vm_compute. discriminate.
+Qed.
+Print Assumptions slice_head_zero_refuted.
+
+(* non-vacuity: a grouped summarize pipeline with filters before and after, an arrange and a final slice is
+   accepted and has the shape; the same pipeline with the slice moved before the filter is refused *)
+Example accepted_example :
+  let sch := [(1%N, TS SInt64); (2%N, TS SInt64)] in
+  let src := Source "t" [("g"%string, 1%N); ("x"%string, 2%N)] in
+  let a := SliceHead (Arrange (Filter (Summarize (GroupBy (Filter src
+             [EFn Op_greater_than [ECol 2%N; ELit (VInt 0)] false [] []]) [1%N] false)
+             [("s"%string, 4%N, EFn Op_sum [ECol 2%N] false [] [])])
+             [EFn Op_greater_than [ECol 4%N; ELit (VInt 2)] false [] []])
+             [(ECol 4%N, (true, Some true))]) 2 0 in
+  shape_ok a = true /\ accepted sch a = true
+  /\ accepted sch (Filter (SliceHead src 2 0) [EFn Op_greater_than [ECol 2%N; ELit (VInt 0)] false [] []]) = false.
+Proof. vm_compute. repeat split; reflexivity. Qed.
